@@ -74,7 +74,7 @@ func (m *Machine) safeSite(kind string, cond *Term, msg string) {
 		site := m.siteName(f, callee)
 		m.E.addObl(m, &Obligation{
 			Name: fmt.Sprintf("%s:safe:%s@%s", m.Top.Name, kind, site), Func: m.Top.Name, Kind: "safe",
-			Props: m.Top.C.Sweep, Reading: ReadE, Goal: cond, Src: msg,
+			Props: m.Top.C.Sweep, Reading: ReadU, Goal: cond, Src: msg,
 		})
 	}
 	m.AssumeT(cond)
